@@ -631,3 +631,304 @@ Lemma brackets_okb_iff : forall loops body ends l,
 Proof.
   intros. unfold brackets_okb. rewrite andb_true_iff, Nat.eqb_eq, nodes_eqb_eq. tauto.
 Qed.
+
+(* ------------------------------------------------------------------------- *)
+(* the decision procedures evaluated on the compiler's own lists              *)
+(* ------------------------------------------------------------------------- *)
+
+Lemma forallb_memb : forall a b, forallb (fun x => memb x b) a = true <-> (forall x, In x a -> In x b).
+Proof.
+  intros a b. rewrite forallb_forall. split; intros H x Hx; [apply memb_In | apply memb_In]; auto.
+Qed.
+
+Lemma covers_okb_iff : forall ns l, covers_okb ns l = true <-> (forall x, In x ns <-> In x l).
+Proof.
+  intros ns l. unfold covers_okb. rewrite andb_true_iff, !forallb_memb. split.
+  - intros [H1 H2] x. split; auto.
+  - intros H. split; intros x Hx; apply H; exact Hx.
+Qed.
+
+Lemma permb_sound : forall a b, permb a b = true -> Permutation a b.
+Proof.
+  intros a b H. unfold permb in H. rewrite !andb_true_iff, !nodupb_iff, !forallb_memb in H.
+  destruct H as [[[Ha Hb] Hab] Hba]. apply NoDup_Permutation; [exact Ha | exact Hb|].
+  intros x. split; auto.
+Qed.
+
+Lemma permb_complete : forall a b, NoDup a -> Permutation a b -> permb a b = true.
+Proof.
+  intros a b Ha Hp. unfold permb. rewrite !andb_true_iff, !nodupb_iff, !forallb_memb.
+  repeat split.
+  - exact Ha.
+  - eapply Permutation_NoDup; eassumption.
+  - intros x Hx. eapply Permutation_in; eassumption.
+  - intros x Hx. eapply Permutation_in; [apply Permutation_sym; exact Hp | exact Hx].
+Qed.
+
+Lemma lifted_indepb_iff : forall g loops pre post, topo g pre ->
+  (lifted_indepb g loops pre post = true <->
+   forall r x, In r loops -> prec pre r x -> prec post x r -> ~ reach g r x).
+Proof.
+  intros g loops pre post Ht. unfold lifted_indepb. rewrite forallb_forall. split.
+  - intros H r x Hr Hrx Hxr Hreach.
+    specialize (H r Hr). rewrite forallb_forall in H.
+    specialize (H x (proj2 (prec_In _ _ _ Hrx))).
+    apply orb_true_iff in H. destruct H as [H | H].
+    + apply negb_true_iff in H. apply andb_false_iff in H.
+      destruct H as [H | H]; [apply precb_iff in Hrx | apply precb_iff in Hxr]; congruence.
+    + apply negb_true_iff in H. apply (descb_iff g pre r x Ht) in Hreach. congruence.
+  - intros H r Hr. apply forallb_forall. intros x Hx.
+    destruct (precb pre r x && precb post x r) eqn:E; [|reflexivity]. simpl.
+    apply andb_true_iff in E. destruct E as [E1 E2]. apply precb_iff in E1. apply precb_iff in E2.
+    apply negb_true_iff. destruct (descb g pre r x) eqn:Ed; [|reflexivity].
+    exfalso. apply (H r x Hr E1 E2). apply (descb_iff g pre r x Ht). exact Ed.
+Qed.
+
+(* a topological order never has a statement above something it depends on *)
+Lemma topo_lift_indep : forall g post r x, topo g post -> prec post x r -> ~ reach g r x.
+Proof.
+  intros g post r x Ht Hxr Hreach.
+  eapply prec_asym; [apply Ht | exact Hxr | eapply reach_prec; eassumption].
+Qed.
+
+(* SOUND: when the checker accepts the code's post-hoist list, that list has every clause *)
+Theorem hoist_spec_okb_sound : forall g loops pre post,
+  topo g pre -> hoist_spec_okb g loops pre post = true ->
+  Permutation pre post /\ topo g post /\
+  (forall y x, reach g y x -> prec post y x) /\
+  (forall r x, In r loops -> prec pre r x -> prec post x r -> ~ reach g r x).
+Proof.
+  intros g loops pre post Ht H. unfold hoist_spec_okb in H. rewrite !andb_true_iff in H.
+  destruct H as [[Hp Hto] Hl]. apply topo_okb_iff in Hto.
+  split; [apply permb_sound; exact Hp|]. split; [exact Hto|]. split.
+  - intros y x Hr. eapply reach_prec; eassumption.
+  - apply (lifted_indepb_iff g loops pre post Ht). exact Hl.
+Qed.
+
+(* COMPLETE: every legal reordering is accepted (hoisting less, or in another legal way, passes) *)
+Theorem hoist_spec_okb_complete : forall g loops pre post,
+  topo g pre -> Permutation pre post -> topo g post -> hoist_spec_okb g loops pre post = true.
+Proof.
+  intros g loops pre post Ht Hp Hto. unfold hoist_spec_okb. rewrite !andb_true_iff. repeat split.
+  - apply permb_complete; [apply Ht | exact Hp].
+  - apply topo_okb_iff. exact Hto.
+  - apply (lifted_indepb_iff g loops pre post Ht). intros r x _ _ Hxr. eapply topo_lift_indep; eassumption.
+Qed.
+
+(* the model of FlowGraph.__hoist meets the specification, for every graph, loop list and order *)
+Theorem hoist_meets_spec : forall g loops l, topo g l -> hoist_spec_okb g loops l (hoist g loops l) = true.
+Proof.
+  intros g loops l Ht. apply hoist_spec_okb_complete; [exact Ht | | apply hoist_topo; exact Ht].
+  apply Permutation_sym. apply hoist_perm.
+Qed.
+
+Lemma inversions_justifiedb_sound : forall g loops pre post, topo g pre ->
+  inversions_justifiedb g loops pre post = true ->
+  forall a b, prec pre a b -> prec post b a ->
+  exists r, In r loops /\ (a = r \/ reach g r a) /\ ~ reach g r b /\ b <> r.
+Proof.
+  intros g loops pre post Ht H a b Hab Hba. unfold inversions_justifiedb in H.
+  rewrite forallb_forall in H. specialize (H a (proj1 (prec_In _ _ _ Hab))).
+  rewrite forallb_forall in H. specialize (H b (proj2 (prec_In _ _ _ Hab))).
+  apply precb_iff in Hab. apply precb_iff in Hba. rewrite Hab, Hba in H. simpl in H.
+  apply existsb_exists in H. destruct H as [r [Hr H]].
+  rewrite !andb_true_iff, !negb_true_iff, orb_true_iff in H. destruct H as [[H1 H2] H3].
+  exists r. split; [exact Hr|]. split; [|split].
+  - destruct H1 as [E | H1]; [left; apply Pos.eqb_eq; exact E | right; apply (descb_iff g pre r a Ht); exact H1].
+  - intros Hreach. apply (descb_iff g pre r b Ht) in Hreach. congruence.
+  - apply Pos.eqb_neq. exact H3.
+Qed.
+
+(* ------------------------------------------------------------------------- *)
+(* consumption of the brackets into the statement tree (HiFiber.__trans_nodes) *)
+(* ------------------------------------------------------------------------- *)
+
+Inductive ftok := FOpen (n : node) | FClose | FLeaf (n : node).
+
+(* pre-order reading of a statement tree, every token with its nesting depth *)
+Fixpoint flat (d : nat) (t : tree) : list (ftok * nat) :=
+  match t with
+  | Leaf n => [(FLeaf n, d)]
+  | For n body => (FOpen n, d) :: flat_map (flat (S d)) body ++ [(FClose, S d)]
+  end.
+Definition flat_forest (d : nat) (ts : list tree) : list (ftok * nat) := flat_map (flat d) ts.
+
+(* the sorted list read the same way: bracket depth computed by counting *)
+Fixpoint toks (cls : node -> kind) (d : nat) (l : list node) : list (ftok * nat) :=
+  match l with
+  | [] => []
+  | x :: t =>
+      match cls x with
+      | KStmt => (FLeaf x, d) :: toks cls d t
+      | KLoop => (FOpen x, d) :: toks cls (S d) t
+      | KEnd => (FClose, d) :: toks cls (pred d) t
+      end
+  end.
+
+Lemma toks_depths : forall cls l d, map snd (toks cls d l) = depths cls d l.
+Proof.
+  intros cls. induction l as [|x t IH]; intros d; simpl; [reflexivity|].
+  destruct (cls x); simpl; rewrite IH; reflexivity.
+Qed.
+
+(* tokens already consumed, read off the machine state *)
+Fixpoint pref (stack : list (node * list tree)) (cur : list tree) : list (ftok * nat) :=
+  match stack with
+  | [] => flat_forest 0 (rev cur)
+  | (m, outer) :: st => pref st outer ++ (FOpen m, length st) :: flat_forest (S (length st)) (rev cur)
+  end.
+
+Lemma flat_forest_app : forall d a b, flat_forest d (a ++ b) = flat_forest d a ++ flat_forest d b.
+Proof. intros. unfold flat_forest. apply flat_map_app. Qed.
+
+Lemma pref_snoc : forall stack cur t0, pref stack (t0 :: cur) = pref stack cur ++ flat (length stack) t0.
+Proof.
+  intros stack cur t0. destruct stack as [|[m outer] st]; simpl.
+  - rewrite flat_forest_app. unfold flat_forest at 2. simpl. rewrite app_nil_r. reflexivity.
+  - rewrite flat_forest_app. unfold flat_forest at 2. simpl. rewrite app_nil_r.
+    rewrite <- app_assoc. simpl. reflexivity.
+Qed.
+
+Lemma consume_flat : forall cls l stack cur ts,
+  consume cls l stack cur = Some ts ->
+  flat_forest 0 ts = pref stack cur ++ toks cls (length stack) l.
+Proof.
+  intros cls. induction l as [|x t IH]; intros stack cur ts H; simpl in H.
+  - destruct stack; [|discriminate]. inversion H; subst. simpl. rewrite app_nil_r. reflexivity.
+  - simpl. destruct (cls x) eqn:Hc.
+    + apply IH in H. rewrite H. simpl. rewrite <- app_assoc. simpl. unfold flat_forest. simpl. reflexivity.
+    + destruct stack as [|[m outer] st]; [discriminate|].
+      apply IH in H. rewrite H. rewrite pref_snoc. simpl.
+      rewrite <- !app_assoc. simpl. rewrite <- !app_assoc. simpl. reflexivity.
+    + apply IH in H. rewrite H. rewrite pref_snoc. simpl. rewrite <- app_assoc. reflexivity.
+Qed.
+
+(* reading the built tree in order, with nesting depth, gives back exactly the sorted list with
+   every node at its bracket depth: nothing lost, reordered or put at another nesting level *)
+Theorem trans_nodes_faithful : forall cls l ts,
+  trans_nodes cls l = Some ts -> flat_forest 0 ts = toks cls 0 l.
+Proof. intros cls l ts H. apply consume_flat in H. exact H. Qed.
+
+Lemma consume_balanced : forall cls l stack cur,
+  (exists ts, consume cls l stack cur = Some ts) <-> balancedb cls (length stack) l = true.
+Proof.
+  intros cls. induction l as [|x t IH]; intros stack cur; simpl.
+  - destruct stack; simpl; split; intros H; try reflexivity; try discriminate.
+    + eexists. reflexivity.
+    + destruct H as [ts H]. discriminate.
+  - destruct (cls x).
+    + rewrite (IH ((x, cur) :: stack) []). simpl. tauto.
+    + destruct stack as [|[m outer] st]; simpl.
+      * split; [intros [ts H]; discriminate | discriminate].
+      * apply IH.
+    + apply IH.
+Qed.
+
+Theorem trans_nodes_total : forall cls l,
+  (exists ts, trans_nodes cls l = Some ts) <-> balancedb cls 0 l = true.
+Proof. intros. unfold trans_nodes. apply (consume_balanced cls l [] []). Qed.
+
+Lemma balancedb_filter : forall cls (P : node -> bool) l d,
+  (forall x, cls x <> KStmt -> P x = true) ->
+  balancedb cls d (filter P l) = balancedb cls d l.
+Proof.
+  intros cls P. induction l as [|x t IH]; intros d HP; simpl; [reflexivity|].
+  destruct (P x) eqn:Px; simpl.
+  - destruct (cls x); [apply IH; exact HP | destruct d; [reflexivity | apply IH; exact HP] | apply IH; exact HP].
+  - destruct (cls x) eqn:Hc; try (rewrite HP in Px; [discriminate | congruence]). apply IH. exact HP.
+Qed.
+
+Lemma balancedb_loops : forall cls loops rest d,
+  (forall x, In x loops -> cls x = KLoop) ->
+  balancedb cls d (loops ++ rest) = balancedb cls (length loops + d) rest.
+Proof.
+  intros cls. induction loops as [|r loops IH]; intros rest d H; simpl; [reflexivity|].
+  rewrite (H r) by (simpl; tauto). rewrite IH by (intros; apply H; simpl; tauto).
+  f_equal. lia.
+Qed.
+
+Lemma balancedb_ends : forall cls es d,
+  (forall x, In x es -> cls x = KEnd) -> balancedb cls d es = Nat.eqb d (length es).
+Proof.
+  intros cls. induction es as [|e es IH]; intros d H; simpl.
+  - destruct d; reflexivity.
+  - rewrite (H e) by (simpl; tauto). destruct d; [reflexivity|]. simpl. apply IH. intros; apply H; simpl; tauto.
+Qed.
+
+(* the bracket discipline checked on the list is what the consumer needs: it then builds a tree *)
+Theorem brackets_balanced : forall loops body ends l,
+  NoDup (chain loops body ends) -> length loops = length ends ->
+  filter (fun x => memb x (chain loops body ends)) l = chain loops body ends ->
+  balancedb (classify loops ends) 0 l = true.
+Proof.
+  intros loops body ends l Hn Hlen Hf.
+  set (cls := classify loops ends).
+  assert (Hloops : forall x, In x loops -> cls x = KLoop).
+  { intros x Hx. unfold cls, classify. apply memb_In in Hx. rewrite Hx. reflexivity. }
+  assert (Hdisj : forall x, In x loops -> ~ In x (body :: rev ends)).
+  { unfold chain in Hn. clear -Hn. induction loops as [|r loops IH]; simpl in *; [tauto|].
+    inversion Hn; subst. intros x [E | Hx].
+    - subst. intros Hi. apply H1. apply in_app_iff. right. exact Hi.
+    - apply IH; assumption. }
+  assert (Hends : forall x, In x ends -> cls x = KEnd).
+  { intros x Hx. unfold cls, classify.
+    destruct (memb x loops) eqn:E.
+    - exfalso. apply memb_In in E. apply (Hdisj x E). simpl. right. apply in_rev in Hx. exact Hx.
+    - apply memb_In in Hx. rewrite Hx. reflexivity. }
+  assert (Hbody : cls body = KStmt).
+  { unfold cls, classify.
+    destruct (memb body loops) eqn:E.
+    - exfalso. apply memb_In in E. apply (Hdisj body E). simpl. tauto.
+    - destruct (memb body ends) eqn:E2; [|reflexivity].
+      exfalso. apply memb_In in E2. unfold chain in Hn. apply nodup_app_r in Hn.
+      inversion Hn; subst. apply H1. apply in_rev in E2. exact E2. }
+  rewrite <- (balancedb_filter cls (fun x => memb x (chain loops body ends)) l 0).
+  - rewrite Hf. unfold chain. rewrite balancedb_loops by exact Hloops. simpl. rewrite Hbody.
+    rewrite balancedb_ends.
+    + rewrite rev_length. apply Nat.eqb_eq. lia.
+    + intros x Hx. apply Hends. apply in_rev. exact Hx.
+  - intros x Hx. apply memb_In. unfold chain. apply in_app_iff. unfold cls, classify in Hx.
+    destruct (memb x loops) eqn:E; [left; apply memb_In; exact E|].
+    destruct (memb x ends) eqn:E2; [|congruence].
+    right. right. apply in_rev. rewrite rev_involutive. apply memb_In. exact E2.
+Qed.
+
+Lemma chain_nodup : forall g loops body ends l,
+  topo g l -> In body l ->
+  (forall a b, In (a, b) (chain_edges (chain loops body ends)) -> In (a, b) g) ->
+  NoDup (chain loops body ends).
+Proof.
+  intros g loops body ends l [Hn He] Hb Hc.
+  apply (chainok_nodup l); [exact Hn|].
+  apply chain_sorted; [exact Hn | intros a b Hab; apply He; apply Hc; exact Hab|].
+  intros x Hx. unfold chain in Hx.
+  destruct loops as [|r loops]; simpl in Hx.
+  - inversion Hx; subst. exact Hb.
+  - inversion Hx as [[E1 E2]]. destruct loops; discriminate.
+Qed.
+
+(* end to end, for the model: whatever topological order the sort returns, the hoisted list is a
+   permutation of it, is still a topological order, has its brackets properly nested in loop order
+   with the update innermost, and the bracket consumer turns it into a tree whose in-order reading
+   is that very list *)
+Theorem hoisted_order_ok : forall g loops body ends l,
+  topo g l -> In body l -> length loops = length ends ->
+  (forall a b, In (a, b) (chain_edges (chain loops body ends)) -> In (a, b) g) ->
+  let l' := hoist g loops l in
+  Permutation l' l /\ topo g l' /\
+  filter (fun x => memb x (chain loops body ends)) l' = chain loops body ends /\
+  exists ts, trans_nodes (classify loops ends) l' = Some ts /\
+             flat_forest 0 ts = toks (classify loops ends) 0 l'.
+Proof.
+  intros g loops body ends l Ht Hb Hlen Hc l'.
+  assert (Hp : Permutation l' l) by apply hoist_perm.
+  assert (Ht' : topo g l') by (apply hoist_topo; exact Ht).
+  assert (Hb' : In body l') by (eapply Permutation_in; [apply Permutation_sym; exact Hp | exact Hb]).
+  assert (Hf : filter (fun x => memb x (chain loops body ends)) l' = chain loops body ends)
+    by (eapply nest_brackets; eassumption).
+  split; [exact Hp|]. split; [exact Ht'|]. split; [exact Hf|].
+  assert (Hbal : balancedb (classify loops ends) 0 l' = true).
+  { apply (brackets_balanced loops body ends); [eapply chain_nodup; eassumption | exact Hlen | exact Hf]. }
+  apply trans_nodes_total in Hbal. destruct Hbal as [ts Hts].
+  exists ts. split; [exact Hts | apply trans_nodes_faithful; exact Hts].
+Qed.
